@@ -582,7 +582,7 @@ func runOne14(r *Run, c case14, toModel bool) {
 
 func loadCorpus14() []case14 {
 	out := []case14{}
-	data, err := os.ReadFile("/verif/corpus/C14/cases.json")
+	data, err := os.ReadFile(verifRoot() + "/corpus/C14/cases.json")
 	if err != nil {
 		return out
 	}
